@@ -506,6 +506,18 @@ func (c *FuncCtx) specBuiltin(st *State, name string, x *ast.CallExpr) ([]*Val, 
 		if v, ok := st.bound["$result"]; ok {
 			return []*Val{v}, true
 		}
+	case "ncalls", "callarg":
+		return c.traceBuiltin(st, name, x)
+	case "fst", "snd":
+		vs := c.evalMulti(st, x.Args[0])
+		i := 0
+		if name == "snd" {
+			i = 1
+		}
+		if i >= len(vs) {
+			limitf("%s: not a tuple", name)
+		}
+		return []*Val{vs[i]}, true
 	}
 	// uninterpreted / assumed-pure library function referenced from a spec
 	return nil, false
@@ -892,6 +904,9 @@ func bindHeader(con *Contract, recv *Val, args []*Val) map[string]*Val {
 	fd := con.Decl
 	if fd.Recv != nil && len(fd.Recv.List) == 1 && len(fd.Recv.List[0].Names) == 1 && recv != nil {
 		b[fd.Recv.List[0].Names[0].Name] = recv
+	} else if fd.Recv == nil && recv != nil {
+		// external method written as "func pkg.Type.Method(recv T, ...)"
+		args = append([]*Val{recv}, args...)
 	}
 	i := 0
 	if fd.Type.Params != nil {
@@ -947,6 +962,15 @@ func (c *FuncCtx) applyContract(st *State, con *Contract, sig *types.Signature, 
 		c.oblige(st, "pre", fmt.Sprintf("call@%s.%s.pre%d", c.anchor(pos), key, i+1), pos, v.S, nil, "requires "+cl.Text)
 		st.bound["$spec"] = &Val{S: "1"}
 		st.assume(v.S)
+	}
+	// ghost trace of this call
+	if con.Traced {
+		var vals []*Val
+		if recv != nil {
+			vals = append(vals, recv)
+		}
+		vals = append(vals, args...)
+		c.traceAppend(st, key, vals)
 	}
 	// havoc
 	c.havocForCall(st, con, key)
@@ -1007,6 +1031,11 @@ func (c *FuncCtx) applyContract(st *State, con *Contract, sig *types.Signature, 
 
 // havocForCall forgets everything the callee may modify.
 func (c *FuncCtx) havocForCall(st *State, con *Contract, key string) {
+	if _, isRepo := c.eng.funcs[key]; isRepo && !con.Assumed {
+		for _, f := range sortedKeys(c.eng.modsetOf(key).traces) {
+			c.traceHavoc(st, f)
+		}
+	}
 	as := con.clauses("assigns")
 	if len(as) > 0 {
 		for _, cl := range as {
